@@ -3,9 +3,9 @@ package main
 // Flattening of Go types into SMT leaves, and type constants for interface reasoning.
 
 import (
-	"regexp"
 	"fmt"
 	"go/types"
+	"regexp"
 	"strings"
 )
 
@@ -17,14 +17,14 @@ type Leaf struct {
 }
 
 var opaqueNamed = map[string]bool{
-	"reflect.Value":   true,
-	"time.Time":       true,
-	"sync.Mutex":      true,
-	"sync.RWMutex":    true,
-	"sync.Once":       true,
-	"sync.WaitGroup":  true,
-	"sync/atomic.Int64": true,
-	"bytes.Buffer":    true,
+	"reflect.Value":       true,
+	"time.Time":           true,
+	"sync.Mutex":          true,
+	"sync.RWMutex":        true,
+	"sync.Once":           true,
+	"sync.WaitGroup":      true,
+	"sync/atomic.Int64":   true,
+	"bytes.Buffer":        true,
 	"container/list.List": true,
 }
 
